@@ -86,6 +86,7 @@ def _one_impl(sc, algpair, idx: int, seed: int):
     from joserfc.jwk import KeySet
     from joserfc.errors import InvalidPayloadError, JoseError
     rnd = random.Random(f"{seed}-{idx}-{algpair}")
+    J.register_drafts({"chacha"})
     fails = []
     tr = sc["tr"]
     if tr == "jws":
@@ -228,8 +229,13 @@ def run(ctx: Ctx) -> None:
     if len(scs) < 300:
         raise MachineryError("scenario export too small")
     items = []
+    # besides the fixed choices, every scenario meets two more rows of the full tables (all JWS algorithms, all key management x
+    # content encryption pairs), rotating with the scenario
+    jws_all = [(a, K.JWS_KEY_KIND[a]) for a in R.JWS_ALGS if a != "none"] + [("EdDSA", "OKP:Ed448")]
+    jwe_all = [(a, e) for a in R.JWE_ALGS for e in R.ENC]
     for idx, sc in enumerate(scs):
-        for ap in (JWS if sc["tr"] == "jws" else JWE):
+        more = [jws_all[(idx * 2 + j) % len(jws_all)] for j in (0, 1)] if sc["tr"] == "jws" else [jwe_all[(idx * 7 + j * 3) % len(jwe_all)] for j in (0, 1)]
+        for ap in list(JWS if sc["tr"] == "jws" else JWE) + [m for m in more if m not in (JWS if sc["tr"] == "jws" else JWE)]:
             reps = (40 if thorough else 4) if sc["payload"] == "object" and sc["madeby"] == "library" else (4 if thorough else 1)
             for rep in range(reps):
                 items.append((idx, sc, ap, rep))
@@ -246,8 +252,8 @@ def run(ctx: Ctx) -> None:
     for sc in scs:
         ctx.nontrivial.add(json.dumps(sc, sort_keys=True))
     ctx.exhaustive = True
-    ctx.rule = ("every scenario of Jwt.tla (transport x typ x key|keyset x 11 payload classes x tampered x library/forged) over 6 JWS and 5 JWE algorithm "
-                "choices; object payloads = seeded generated claim sets (unicode, nesting depth<=3, ints to 10^30, floats incl. extremes, aware/naive datetimes); "
+    ctx.rule = ("every scenario of Jwt.tla (transport x typ x key|keyset x 11 payload classes x tampered x library/forged) over 6 JWS and 5 JWE fixed algorithm choices plus two rotating rows of the full tables per scenario; "
+                " object payloads = seeded generated claim sets (unicode, nesting depth<=3, ints to 10^30, floats incl. extremes, aware/naive datetimes); "
                 "non-object payloads signed/encrypted by refimpl; distinct_nontrivial = distinct scenarios")
     ctx.sample(scs[3]); ctx.sample(scs[200])
     ctx.assumptions = ["naive datetimes: UTC or local interpretation both accepted", "NaN/Infinity not generated"]
